@@ -101,6 +101,8 @@ pub trait Machine {
     fn write_word(&mut self, addr: u16, v: u16);
     /// bytes of the fetch view starting at addr (at most `max`)
     fn fetch_view(&self, addr: usize, max: usize) -> Vec<u8>;
+    /// what the translator would read at `addr` (cartridge ROM only, addr < 0x8000)
+    fn fetch_view_translator(&self, addr: usize, max: usize) -> Vec<u8>;
     // ---- raw storage
     fn rom(&self) -> &[u8];
     fn vram(&mut self) -> &mut [u8];
@@ -405,6 +407,10 @@ pub fn set_arena_size(size: usize) {
             }
             fn fetch_view(&self, addr: usize, max: usize) -> Vec<u8> {
                 let s = $krate::mem::get_executable_memory_slice(addr, &self.core.memory as *const _);
+                s[..s.len().min(max)].to_vec()
+            }
+            fn fetch_view_translator(&self, addr: usize, max: usize) -> Vec<u8> {
+                let s = self.core.cache.get_executable_memory_segment(addr, &self.core.memory as *const _);
                 s[..s.len().min(max)].to_vec()
             }
             fn rom(&self) -> &[u8] {
